@@ -271,7 +271,7 @@ def run(ctx):
     if ctx.shard == 0:
         run_blocks(ctx)
         run_solver_sites(ctx)
-        if ctx.thorough:
+        if ctx.thorough and ctx.round == 0:
             # W-ambient: every aliased call the repository's own suite makes, shadow-executed
             from .c03 import ambient_suite
             data = ambient_suite(ctx, {'VF_AMBIENT_SHADOW': '1'}, 'c10')
